@@ -31,9 +31,11 @@ const (
 
 type probe struct {
 	src     source
-	op      string // binder method: query form header cookie json xml cbor body uri
-	auto    bool   // WithAutoHandling / WithoutAutoHandling (always set explicitly)
-	swallow bool   // totality: the handler ignores the bind error and answers normally
+	op      string      // binder method: query form header cookie json xml cbor body uri
+	auto    bool        // WithAutoHandling / WithoutAutoHandling (set explicitly unless defMode)
+	defMode bool        // the handler does not choose a mode: the documented default is manual handling
+	respHdr [][2]string // op "respheader": response headers the handler sets before Bind().RespHeader
+	swallow bool        // totality: the handler ignores the bind error and answers normally
 	typ     *typeSpec
 	want    reflect.Value // struct value to compare with; invalid = no comparison
 	outKind int
@@ -44,6 +46,7 @@ type probe struct {
 	hasErr   bool
 	bindErr  string
 	err422   bool // Bind().Body with an unsupported content type: documented 422
+	wrapped  bool // the error is the automatic handling's *fiber.Error{400, "Bad request: ..."}
 	diff     *diff
 	got      map[string]any
 	panicVal string
@@ -70,6 +73,8 @@ func (p *probe) call(b *fiber.Bind, out any) error {
 		return b.Body(out)
 	case "uri":
 		return b.URI(out)
+	case "respheader":
+		return b.RespHeader(out)
 	}
 	panic("harness: unknown op " + p.op)
 }
@@ -88,10 +93,15 @@ func (p *probe) handler(c fiber.Ctx) error {
 		sv = reflect.New(p.typ.RT)
 		out = sv.Interface()
 	}
+	for _, kv := range p.respHdr {
+		c.Response().Header.Add(kv[0], kv[1])
+	}
 	b := c.Bind()
-	if p.auto {
+	switch {
+	case p.defMode:
+	case p.auto:
 		b = b.WithAutoHandling()
-	} else {
+	default:
 		b = b.WithoutAutoHandling()
 	}
 	var err error
@@ -111,6 +121,8 @@ func (p *probe) handler(c fiber.Ctx) error {
 		p.hasErr = true
 		p.bindErr = err.Error()
 		p.err422 = p.op == "body" && errors.Is(err, fiber.ErrUnprocessableEntity)
+		var fe *fiber.Error
+		p.wrapped = errors.As(err, &fe) && fe.Code == fiber.StatusBadRequest && strings.HasPrefix(fe.Message, "Bad request: ")
 		if p.swallow {
 			return c.SendString("swallowed")
 		}
